@@ -89,3 +89,10 @@ add("C12",
     "Trusted: CrossHair/z3; element-tree level (tostring/expat are C and outside); empty text treated as absent.",
     "DESIGN.md 3/C12")
 NOT_APPLICABLE.pop("C12", None)
+
+add("C14",
+    "CrossHair-driven exploration of pack.http_form_post_message / http_redirect_message / make_soap_enveloped_saml_thingy, Entity.apply_binding and Entity.unravel over symbolic indices into alphabets of hostile characters, checked by independent standard readers",
+    "RelayState/message/text assembled from symbolic indices over alphabets containing every HTML/URL/XML-significant character: a conforming HTML parser recovers exactly the two fields, a URL parser exactly the parameters (destination query untouched, signed octets = spec-ordered prefix), an XML parser an element-identical SOAP body, and the real decoders return the original bytes.",
+    "Weaker than the other checks: strings are concrete per path (arbitrary symbolic strings do not close through these encoders), so z3 only enumerates the index space. Trusted: stdlib html.parser / urllib.parse / ElementTree as independent readers.",
+    "DESIGN.md 3/C14")
+NOT_APPLICABLE.pop("C14", None)
